@@ -1,43 +1,8 @@
 //! C10 — Framebuffer reads back what was written, in the layout of ImageRaw.
+use crate::common::{layout_pixel, U32Color};
 use crate::prelude::*;
 use embedded_graphics::framebuffer::{buffer_size, Framebuffer};
 use embedded_graphics::image::GetPixel;
-
-/// 32-bit test colour (the crate has no built-in RawU32 colour).
-#[derive(Debug, Copy, Clone, PartialEq, Eq)]
-pub struct U32Color(pub u32);
-impl PixelColor for U32Color {
-    type Raw = RawU32;
-}
-impl From<RawU32> for U32Color {
-    fn from(raw: RawU32) -> Self { Self(raw.into_inner()) }
-}
-impl From<U32Color> for RawU32 {
-    fn from(c: U32Color) -> Self { Self::new(c.0) }
-}
-
-/// documented layout (same oracle as C11, restated): pixel `i` of a packed row-padded buffer
-fn layout_pixel(buf: &[u8], bpp: usize, alt: bool, w: usize, x: usize, y: usize) -> u32 {
-    let bytes_per_row = (w * bpp + 7) / 8;
-    if bpp < 8 {
-        let ppb = 8 / bpp;
-        let byte = buf[y * bytes_per_row + x / ppb];
-        let pos = x % ppb;
-        let shift = if alt { pos * bpp } else { (ppb - 1 - pos) * bpp };
-        ((byte >> shift) as u32) & ((1u32 << bpp) - 1)
-    } else {
-        let n = bpp / 8;
-        let start = y * bytes_per_row + x * n;
-        let mut v: u32 = 0;
-        let mut k = 0;
-        while k < n {
-            let b = buf[start + k] as u32;
-            if alt { v = (v << 8) | b; } else { v |= b << (8 * k); }
-            k += 1;
-        }
-        v
-    }
-}
 
 macro_rules! c10_step {
     ($step:ident, $C:ty, $O:ty, $alt:expr, $W:expr, $H:expr, $EXTRA:expr, $unw:expr) => {
